@@ -24,6 +24,7 @@ fn fnum(n: &Value) -> f64 {
         Some("nan") => f64::NAN,
         Some("inf") => f64::INFINITY,
         Some("ninf") => f64::NEG_INFINITY,
+        Some("negzero") => -0.0,
         _ => n["p"].as_f64().unwrap_or(0.0) / n["q"].as_f64().unwrap_or(1.0),
     }
 }
@@ -122,9 +123,17 @@ impl<'a> Serialize for Node<'a> {
 }
 
 /// tagged value with every integer kept as its decimal digits: {"t":"num","int":"..."}
+/// a float; negative zero keeps its sign (field z): serde_json prints it as -0.0, and so must the library's image
+fn float_tag(n: &serde_json::Number) -> Value {
+    match n.as_f64() {
+        Some(f) if f == 0.0 && f.is_sign_negative() => json!({"t":"num","p":0,"q":1,"z":true}),
+        _ => num_to_tagged(n),
+    }
+}
 pub fn tag_var(v: &Variable) -> Value {
     match v {
         Variable::Number(n) if n.is_i64() || n.is_u64() => json!({"t":"num","int":n.to_string()}),
+        Variable::Number(n) => float_tag(n),
         Variable::Array(a) => json!({"t":"arr","a":a.iter().map(|x| tag_var(x)).collect::<Vec<_>>()}),
         Variable::Object(m) => json!({"t":"obj","o":m.iter().map(|(k, x)| json!({"k":cps(k),"v":tag_var(x)})).collect::<Vec<_>>()}),
         other => to_tagged(other),
@@ -135,7 +144,7 @@ pub fn tag_json(v: &Value) -> Value {
         Value::Null => json!({"t":"null"}),
         Value::Bool(b) => json!({"t":"bool","b":b}),
         Value::Number(n) if n.is_i64() || n.is_u64() => json!({"t":"num","int":n.to_string()}),
-        Value::Number(n) => num_to_tagged(n),
+        Value::Number(n) => float_tag(n),
         Value::String(s) => json!({"t":"str","s":cps(s)}),
         Value::Array(a) => json!({"t":"arr","a":a.iter().map(tag_json).collect::<Vec<_>>()}),
         Value::Object(m) => {
@@ -201,6 +210,9 @@ enum AT { A { x: i32 }, B, C(i32, i32) }
 #[derive(Debug, PartialEq, Deserialize, DSerialize, Clone)]
 #[serde(untagged)]
 enum UT { N(i32), S(String), P { x: i32 } }
+#[derive(Debug, PartialEq, Deserialize, DSerialize, Clone)]
+#[serde(deny_unknown_fields)]
+struct Strict { id: i32, #[serde(default)] note: Option<String> }
 /// a hand-written visitor that reads exactly one entry of a map and stops
 #[derive(Debug, PartialEq, Clone)]
 struct FirstEntry(String, i32);
@@ -249,10 +261,10 @@ where
     (sa, sb, rt)
 }
 
-pub const TYPES: [&str; 38] = ["bool", "i8", "u8", "i32", "i64", "u64", "f64", "char", "String", "Option<i32>", "()", "Unit", "Newtype",
+pub const TYPES: [&str; 40] = ["bool", "i8", "u8", "i32", "i64", "u64", "f64", "char", "String", "Option<i32>", "()", "Unit", "Newtype",
     "Vec<i32>", "Vec<u8>", "(i32,String)", "Pair", "Point", "E", "BTreeMap<String,i32>", "Vec<Option<bool>>", "Outer", "Option<E>", "Vec<Point>",
     "BTreeMap<UserId,Vec<u32>>", "BTreeMap<char,i32>", "BTreeMap<Color,i32>", "Flat", "Vec<UserId>",
-    "[i32;2]", "Box<Point>", "(UserId,i32)", "BTreeMap<String,Option<Point>>", "IT", "AT", "UT", "FirstEntry", "Vec<IT>"];
+    "[i32;2]", "Box<Point>", "(UserId,i32)", "BTreeMap<String,Option<Point>>", "IT", "AT", "UT", "FirstEntry", "Vec<IT>", "Strict", "Vec<Strict>"];
 
 fn dec_by_name(ty: &str, var: &Variable, val: &Value) -> (String, String, bool) {
     match ty {
@@ -296,6 +308,8 @@ fn dec_by_name(ty: &str, var: &Variable, val: &Value) -> (String, String, bool) 
         "UT" => dec::<UT>(var, val),
         "FirstEntry" => dec::<FirstEntry>(var, val),
         "Vec<IT>" => dec::<Vec<IT>>(var, val),
+        "Strict" => dec::<Strict>(var, val),
+        "Vec<Strict>" => dec::<Vec<Strict>>(var, val),
         _ => ("?".into(), "?".into(), false),
     }
 }
@@ -393,13 +407,13 @@ where
     (img(T::deserialize(var.clone()).ok()), img(serde_json::from_value::<T>(val.clone()).ok()))
 }
 
-pub const MODEL_TYPES: [(&str, &str); 38] = [("bool", "bool"), ("i8", "i8"), ("u8", "u8"), ("i32", "i32"), ("i64", "i64"), ("u64", "u64"), ("f64", "f64"),
+pub const MODEL_TYPES: [(&str, &str); 40] = [("bool", "bool"), ("i8", "i8"), ("u8", "u8"), ("i32", "i32"), ("i64", "i64"), ("u64", "u64"), ("f64", "f64"),
     ("char", "char"), ("String", "String"), ("OptI32", "Option<i32>"), ("unit", "()"), ("Unit", "Unit"), ("Newtype", "Newtype"), ("VecI32", "Vec<i32>"),
     ("VecU8", "Vec<u8>"), ("TupI32String", "(i32,String)"), ("Pair", "Pair"), ("Point", "Point"), ("E", "E"), ("MapStringI32", "BTreeMap<String,i32>"),
     ("VecOptBool", "Vec<Option<bool>>"), ("Outer", "Outer"), ("OptE", "Option<E>"), ("VecPoint", "Vec<Point>"), ("MapUserIdVecU32", "BTreeMap<UserId,Vec<u32>>"),
     ("MapCharI32", "BTreeMap<char,i32>"), ("MapColorI32", "BTreeMap<Color,i32>"), ("Flat", "Flat"), ("VecUserId", "Vec<UserId>"), ("ArrI32x2", "[i32;2]"),
     ("BoxPoint", "Box<Point>"), ("TupUserIdI32", "(UserId,i32)"), ("MapStringOptPoint", "BTreeMap<String,Option<Point>>"), ("IT", "IT"), ("AT", "AT"),
-    ("UT", "UT"), ("FirstEntry", "FirstEntry"), ("VecIT", "Vec<IT>")];
+    ("UT", "UT"), ("FirstEntry", "FirstEntry"), ("VecIT", "Vec<IT>"), ("Strict", "Strict"), ("VecStrict", "Vec<Strict>")];
 
 fn dec_img_by_name(ty: &str, var: &Variable, val: &Value) -> Option<(Value, Value)> {
     Some(match ty {
@@ -441,6 +455,8 @@ fn dec_img_by_name(ty: &str, var: &Variable, val: &Value) -> Option<(Value, Valu
         "UT" => dec_img::<UT>(var, val),
         "FirstEntry" => dec_img::<FirstEntry>(var, val),
         "Vec<IT>" => dec_img::<Vec<IT>>(var, val),
+        "Strict" => dec_img::<Strict>(var, val),
+        "Vec<Strict>" => dec_img::<Vec<Strict>>(var, val),
         _ => return None,
     })
 }
